@@ -27,6 +27,10 @@ type Case struct {
 	// several schema fields (fieldName aliases, names differing only in case)
 	UserModel bool `json:"user_model,omitempty"`
 	AutoBind  bool `json:"autobind,omitempty"`
+	// SelfAutobind: autobind lists the package the models are generated into; Again: generation is run
+	// a second time in the tree it produced
+	SelfAutobind bool `json:"self_autobind,omitempty"`
+	Again        bool `json:"again,omitempty"`
 }
 
 var seq atomic.Int64
@@ -90,6 +94,22 @@ func Generate(c Case, keep bool) (dir string, f *vfrun.Failure) {
 			c.Config.ExtraModels = "  VhOverlap:\n    model: " + imp + ".VhOverlap\n    fields:\n      aAlias:\n        fieldName: a\n      bAlias:\n        fieldName: b\n"
 		}
 	}
+	if c.SelfAutobind {
+		// autobind names the package the models are generated into (as gqlgen's own init template
+		// and its default test project do): on a second run the previous models_gen.go is there
+		rel, _ := filepath.Rel(filepath.Join(work, "h"), dir)
+		self := "vh/" + filepath.ToSlash(rel)
+		// the package has to exist before the first run (a user's project has a file of its own there)
+		_ = os.WriteFile(filepath.Join(dir, "doc.go"), []byte("// Package "+c.Config.Package+" holds the user's own code beside the generated one.\npackage "+c.Config.Package+"\n"), 0o644)
+		if c.Config.Extra == nil {
+			c.Config.Extra = map[string]string{}
+		}
+		if cur := c.Config.Extra["autobind"]; cur != "" {
+			c.Config.Extra["autobind"] = strings.TrimSuffix(cur, "]") + ", \"" + self + "\"]"
+		} else {
+			c.Config.Extra["autobind"] = "[\"" + self + "\"]"
+		}
+	}
 	_ = os.WriteFile(filepath.Join(dir, "gqlgen.yml"), []byte(c.Config.YAML()), 0o644)
 	tool := filepath.Join(work, "gqlgen-gen")
 	out, err := runCmd(dir, tool, "-config", "gqlgen.yml", "-stub", "stub.go")
@@ -119,6 +139,21 @@ func Generate(c Case, keep bool) (dir string, f *vfrun.Failure) {
 	}
 	if out3, err := runCmd(dir, "go", "vet", "./..."); err != nil {
 		return dir, vfrun.Failf("generate.vet", "go vet of the generated code fails:\n%s\n%s", tail(out3, 3000), desc())
+	}
+	if c.Again {
+		// generation is something users repeat: on the tree it produced itself it has to finish and
+		// compile just the same
+		out, err := runCmd(dir, tool, "-config", "gqlgen.yml", "-stub", "stub.go")
+		if err != nil {
+			key := "generate.second-run-failed"
+			if strings.Contains(out, "panic:") || strings.Contains(out, "goroutine ") {
+				key = "generate.panic"
+			}
+			return dir, vfrun.Failf(key, "the second generation in the same tree failed: %v\n%s\n%s", err, tail(out, 3000), desc())
+		}
+		if out2, err := runCmd(dir, "go", "build", "-trimpath", "./..."); err != nil {
+			return dir, vfrun.Failf("generate.does-not-compile", "after the second generation the code does not compile:\n%s\n%s", tail(out2, 3000), desc())
+		}
 	}
 	return dir, nil
 }
@@ -233,6 +268,14 @@ func gen(t *rapid.T) Case {
 	}
 	c := Case{Files: s.Files, Config: cfggen.Draw(t, "gen", objectFields(schema))}
 	c.UserModel = rapid.IntRange(0, 2).Draw(t, "usermodel") == 0
+	c.SelfAutobind = rapid.IntRange(0, 3).Draw(t, "selfautobind") == 0
+	c.Again = c.SelfAutobind || rapid.IntRange(0, 3).Draw(t, "again") == 0
+	if c.SelfAutobind {
+		vfrun.Label("autobind-own-model-package")
+	}
+	if c.Again {
+		vfrun.Label("generated-twice")
+	}
 	if c.UserModel {
 		c.AutoBind = rapid.Bool().Draw(t, "autobind")
 		vfrun.Label("user-model-with-aliased-fields")
